@@ -250,13 +250,20 @@ def emu_cases(draw):
     base = 10 ** 14 if far else 10 ** 6
     if draw(st.integers(0, 3)) == 0:
         base += 2 ** 53 + 1       # clocks of a host that has been up for months: beyond 53 bits
+    # "neg": the corrected clocks are negative (hosts that booted a moment ago and whose offset to the
+    # reference is a large negative number); their own clocks stay positive
+    neg = (not far) and base < 2 ** 53 and draw(st.integers(0, 4)) == 0
+    if neg:
+        base = -50000
     HOUR = 3600 * 10 ** 9
     scale = draw(st.sampled_from([1, 1, 1, 2 ** 31 + 3, 5 * 10 ** 9]))   # seconds apart: differences beyond 32 bits
     samepid = draw(st.booleans())
     for li in range(nlooms):
         host = hosts[0] if (share and li == 1) else hosts[li]
         lname = "%s.%d" % (host, li)
-        if host not in decided and draw(st.integers(0, 3)) != 0:
+        if neg and host not in decided:
+            offsets[host] = draw(st.sampled_from([-10 ** 6, -2 * 10 ** 6, -10 ** 6 - 7]))
+        elif host not in decided and draw(st.integers(0, 3)) != 0:
             offsets[host] = draw(st.sampled_from([0, -40, 40, -5000, 5000, 123456, -7] if not far else
                                                  [2 * HOUR, -2 * HOUR, 5 * HOUR + 17, -3 * HOUR - 1, HOUR + 1, 40]))
         decided.add(host)       # one decision per host, also when two looms share it
@@ -287,7 +294,7 @@ def emu_cases(draw):
                         "extra": {"ovni.part": "aux"}})
     order = list(draw(st.permutations(list(range(len(streams))))))
     # (without the table the far hosts would really be hours apart, which the emulator refuses by design)
-    use_offsets = (offsets or None) if (far or draw(st.integers(0, 4)) != 0) else None
+    use_offsets = (offsets or None) if (far or neg or draw(st.integers(0, 4)) != 0) else None
     return {"streams": streams, "offsets": use_offsets, "mkorder": order}
 
 
@@ -363,7 +370,7 @@ def run_emu(case, ctx):
     return {"nt": tie or reorder, "cls": ["emu:looms=%d" % len({s["loom"] for s in case["streams"]}),
                                             "emu:ties" if tie else "emu:noties",
                                             "emu:offsets" if case.get("offsets") else "emu:nooffsets"] +
-                                           (["emu:hosts-hours-apart"] if case.get("offsets") and max(case["offsets"].values()) - min(list(case["offsets"].values()) + [0]) > 3600 * 10 ** 9 else [])}
+                                           (["emu:negative-corrected-clocks"] if min(e[0] for e in evs) < 0 else []) + (["emu:hosts-hours-apart"] if case.get("offsets") and max(case["offsets"].values()) - min(list(case["offsets"].values()) + [0]) > 3600 * 10 ** 9 else [])}
 
 
 def parts(tier):
